@@ -268,10 +268,31 @@ def plan(tier):
                 jobs.append(Job('%s.L3.%s' % (PROP, tag), kname, pat, step_contract(L, delta, post), via=sname, shim=sname, shim_types=[l],
                                 oracle=orc, prop=PROP, timeout=120, layer=3, skip_this=False))
                 n_inst += 1
+    # the GCC detection path (-U__clang__: __builtin_*_overflow + polarity guess) also sits under native_overflow_tag for + - *:
+    # the same equality with the built-in expression, whole public operator inlined, in a second kernel
+    src_g = [KERNEL_HEAD]
+    for nest in (['on', 's0_on'] if thorough else ['on']):
+        for (l, r) in [('i32', 'i32'), ('i32', 'u32'), ('u32', 'i32')] + ([('i8', 'i8'), ('i64', 'i64'), ('i16', 'u16'), ('u64', 'i32')] if thorough else []):
+            L, R = T(l), T(r)
+            A, B = NESTS[nest](cxx(l)), NESTS[nest](cxx(r))
+            for op in ('add', 'subtract', 'multiply'):
+                if op == 'multiply' and L.signed != R.signed:
+                    continue        # clang lowers the mixed-sign intrinsic through an i65/i33 product: its nsw obligation needs the machine product, the
+                                    # value clause needs the abstraction -- not claimed for this shape
+                sym = OPS[op]
+                tag = 'gcc_%s_%s_%s_%s' % (nest, op, l, r)
+                sname = 'vp_' + tag
+                Res = builtin_sem(op, L, R, 'x', 'y')['res']
+                src_g.append(shim(short_of(Res), sname, [(l, 'a'), (r, 'b')], 'return cnl::unwrap(cnl::_impl::from_rep<%s>(a) %s cnl::_impl::from_rep<%s>(b));' % (A, sym, B)))
+                absm = dict(abstract_mul=True) if op == 'multiply' else {}
+                jobs.append(Job('%s.L3.%s' % (PROP, tag), 'C12_gcc', P_PUBLIC, sem_contract(op, L, R, 0), via=sname, shim=sname, shim_types=[l, r],
+                                oracle=oracle(op, L, R), prop=PROP, timeout=120, layer=3, **absm))
+                n_inst += 1
     k = Kernel(kname, ''.join(src), [], 'native-tag wrappers')
+    kg = Kernel('C12_gcc', ''.join(src_g), ['-U__clang__'], 'native-tag wrappers, GCC detection path')
     meta = {'instantiations': n_inst,
             'explanation': 'wrapper operators proved equal to the built-in expression on the reps, layer by layer; the promoted result type is a compile-time fact',
             'not_applicable_parts': ['64x64-bit multiply/divide equalities (same-circuit, beyond SAT budget)',
                                      'comparison "as compiled IR" of whole kernels: replaced here by per-function contracts'],
             'assumptions': []}
-    return {'kernels': [k], 'jobs': jobs, 'meta': meta}
+    return {'kernels': [k, kg], 'jobs': jobs, 'meta': meta}
